@@ -64,13 +64,13 @@ class Docs:
         self.key = []       # value key (tuple) or None for corrupted texts
         self.mvalid = []
         self.nf = []
-        self.cf = []
+        self.sv = []
         self.hev = []
         self.undet = []
         self.kind = []      # "style" | "printer" | "corrupt"
         self.ambiguous = []
 
-    def add(self, text, key, mvalid, nf, cf, hev, undet, kind):
+    def add(self, text, key, mvalid, nf, sv, hev, undet, kind):
         i = self.idx.get(text)
         if i is not None:
             if self.key[i] != key and kind != "corrupt" and self.kind[i] != "corrupt":
@@ -82,7 +82,7 @@ class Docs:
         self.key.append(key)
         self.mvalid.append(mvalid)
         self.nf.append(nf)
-        self.cf.append(cf)
+        self.sv.append(sv)
         self.hev.append(hev)
         self.undet.append(undet)
         self.kind.append(kind)
@@ -115,14 +115,14 @@ def build(tier, wd, rng):
         o = json.loads(raw)
         k = tuple(o["key"])
         if k not in vals or o["gen"] == 0:
-            vals[k] = {"nf": tuple(o["nf"]), "cf": tuple(o["cf"]), "sk": tuple(o["sk"]), "gen": o["gen"]}
+            vals[k] = {"nf": tuple(o["nf"]), "sv": tuple(tuple(x) for x in o["sv"]), "sk": tuple(o["sk"]), "gen": o["gen"]}
     D = Docs()
     by_val = collections.defaultdict(list)      # key -> [doc index]
     dflt, nlmix = {}, {}
     for raw in gen.tagged["DOC"]:
         o = json.loads(raw)
         k = tuple(o["key"])
-        i = D.add(join(o["toks"]), k, 1, vals[k]["nf"], vals[k]["cf"], tuple(o["hev"]), bool(o["undet"]), "style")
+        i = D.add(join(o["toks"]), k, 1, vals[k]["nf"], vals[k]["sv"], tuple(o["hev"]), bool(o["undet"]), "style")
         if i not in by_val[k]:
             by_val[k].append(i)
         if o["dflt"]:
@@ -152,7 +152,7 @@ def build(tier, wd, rng):
                 continue
             before = len(D.text)
             # M: the printers write implicit bodies with `,`: the hash events of the default style
-            i = D.add(ptexts[g[j]], k, 1, vals[k]["nf"], vals[k]["cf"], D.hev[dflt[k]], D.undet[dflt[k]], "printer")
+            i = D.add(ptexts[g[j]], k, 1, vals[k]["nf"], vals[k]["sv"], D.hev[dflt[k]], D.undet[dflt[k]], "printer")
             n_printer += len(D.text) - before
             if i not in by_val[k]:
                 by_val[k].append(i)
@@ -166,7 +166,7 @@ def build(tier, wd, rng):
         text = join(t)
         if text in D.idx:
             continue
-        i = D.add(text, None, 0, ("invalid", text), ("invalid", text), ("invalid", text), False, "corrupt")
+        i = D.add(text, None, 0, ("invalid", text), (), ("invalid", text), False, "corrupt")
         cor_of.append((i, D.idx[join(o["toks"])], o["cor"]))
     edges = []
     for raw in gen.tagged["EDGE"]:
@@ -224,13 +224,12 @@ def observe_and_table(D, pairs, wd, tag="obs"):
     hash_ = [hcls.setdefault(h, len(hcls)) for h in res["hash"]]
     valid = [1 if x else 0 for x in res["valid"]]
     mnf = [nfc.setdefault(x, len(nfc) + 1) for x in D.nf]
-    cfc = {}
-    mcf = [cfc.setdefault(x, len(cfc) + 1) for x in D.cf]
+    msv = [[nfc.setdefault(x, len(nfc) + 1) for x in sv] if D.mvalid[i] == 1 else [] for i, sv in enumerate(D.sv)]
     mhev = [hevc.setdefault(x, len(hevc) + 1) for x in D.hev]
     cmpc = {"0": 0, "1": 1, "!": 9}
     veqc = {"0": 0, "1": 1, "-": 2}
     rows = [[a + 1, b + 1, cmpc[c], veqc[v]] for (a, b), c, v in zip(pairs, res["pairs"]["cmp"], res["pairs"]["veq"])]
-    table = {"valid": valid, "hash": hash_, "mvalid": D.mvalid, "mnf": mnf, "mcf": mcf, "mhev": mhev, "rows": rows, "chunk": 2000}
+    table = {"valid": valid, "hash": hash_, "mvalid": D.mvalid, "mnf": mnf, "msv": msv, "mhev": mhev, "rows": rows, "chunk": 2000}
     return res, table
 
 
@@ -268,15 +267,15 @@ def pair_classes(D, a, b):
                 s.add("implicit-attr-body-scan")        # the StartBody/EndRecord normalisation differs
             if [e for e in ha if e in ZEROS] != [e for e in hb if e in ZEROS]:
                 s.add("float-zero-sign-hash")           # a float zero of different sign at the same place
-    elif D.cf[a] == D.cf[b]:
-        s.add("nested-record-start")                    # same items, a nested record opens at a different place
+    elif D.nf[b] in D.sv[a] or D.nf[a] in D.sv[b]:
+        s.add("nested-record-start")                    # same items, one nested record opens further left in one of them
     return s
 
 
 def model_of(D, i):
     if D.mvalid[i] != 1:
         return None
-    return {"valid": 1, "normal_form": list(D.nf[i]), "coarse_form": list(D.cf[i]), "hash_events": list(D.hev[i]),
+    return {"valid": 1, "normal_form": list(D.nf[i]), "shift_forms": [list(x) for x in D.sv[i]], "hash_events": list(D.hev[i]),
             "undetected_implicit_body": D.undet[i]}
 
 
@@ -410,10 +409,10 @@ def replay(path, out):
     for side in ("a", "b"):
         m = (obj.get("model") or {}).get(side)
         if m:
-            D.add(obj[side], ("replay", side), 1, tuple(m["normal_form"]), tuple(m["coarse_form"]), tuple(m["hash_events"]),
+            D.add(obj[side], ("replay", side), 1, tuple(m["normal_form"]), tuple(tuple(x) for x in m["shift_forms"]), tuple(m["hash_events"]),
                   m["undetected_implicit_body"], "style")
         else:
-            D.add(obj[side], None, 0, ("invalid", obj[side]), ("invalid", obj[side]), ("invalid", obj[side]), False, "corrupt")
+            D.add(obj[side], None, 0, ("invalid", obj[side]), (), ("invalid", obj[side]), False, "corrupt")
     if len(D.text) == 1:
         pairs = [(0, 0)]
     else:
